@@ -35,7 +35,12 @@ def build(spec, fresh=False):
         parent = build(spec["subclass_of"])
         key = repr(sorted(spec.items(), key=str))
         if key not in _dyn:
-            _dyn[key] = type(str("Custom" + parent.__name__ + spec["enz"].get("name", "Syn")), (parent,), {"cutter": cutter_of(spec["enz"])})
+            body = {"cutter": cutter_of(spec["enz"])}
+            if spec.get("extra_group"):
+                # ... or that writes its own structure(): the parent's, followed by one more capture group (a barcode, say)
+                pst = parent.structure() + spec["extra_group"]
+                body["structure"] = staticmethod(lambda pst=pst: pst)
+            _dyn[key] = type(str(("Barcoded" if spec.get("extra_group") else "Custom") + parent.__name__ + spec["enz"].get("name", "Syn")), (parent,), body)
         return _dyn[key]
     if "sibling_of" in spec:        # a user class written next to a kit class: same bases, a signature of its own
         model = build(spec["sibling_of"])
